@@ -10,6 +10,7 @@ EXPLANATION = (
     "constant forces Err; the exception is an equality with that single constant. R3 dedup: marker present forces Err(DuplicateTx); on the normal path Ok is reached "
     "only through inserting the marker under the same key that was looked up; the marker is an unspendable zero-value coin. R4 marker permanence: "
     "faucet_dedup_pseudocoin is used only by handle_faucet_tx and no remove_coin is keyed by it."
+    " The gate atoms are read from `==`/`!=` comparisons and from `matches!`/`match` on the enum (variant atoms)."
 )
 NOT_DECIDED = ["replay after restart relies on C08 (the marker lives in the persisted coin tree)",
                "that no transaction input can equal the marker's CoinID and pass its covenant (covenant hash zero has no preimage: hash assumption)"]
